@@ -413,3 +413,105 @@ func runDeepFence(rcx *RunCtx, k int) {
 	})
 	finishRun(rcx)
 }
+
+// Rename-race: a rename of an entry (A) is parked inside the backend; a
+// Trename or Tremove through a fid on that entry (B) queues behind it.  When B
+// runs, the entry has another name: "Trename/Tremove use the entry's current
+// name".
+var renameRaceB = []struct {
+	name string
+	m    func() rc.Message
+	// where the object is afterwards ("" = removed)
+	dir, nm string
+}{
+	{"trename-to-root", func() rc.Message { return &rc.Trename{Fid: 1, Dfid: 0, Name: "z"} }, "/", "z"},
+	{"trename-in-place", func() rc.Message { return &rc.Trename{Fid: 1, Dfid: 2, Name: "w"} }, "/a", "w"},
+	{"tremove", func() rc.Message { return &rc.Tremove{Fid: 1} }, "", ""},
+}
+
+const renameRaceSchedules = 16
+
+func renameRaceCount() int { return len(renameRaceB) * 2 * renameRaceSchedules }
+
+func runRenameRace(rcx *RunCtx, k int) {
+	cfg := simCfg(rcx)
+	b := renameRaceB[k%len(renameRaceB)]
+	cross := (k/len(renameRaceB))%2 == 1
+	rcx.Label = fmt.Sprintf("rename-race %s cross=%v", b.name, cross)
+	rcx.Sample = map[string]interface{}{"scenario": "Trenameat of an entry parked in the backend, " + b.name + " through a fid on that entry queued behind it", "A_on_other_connection": cross}
+	find := func(oracle, key, format string, args ...interface{}) {
+		rcx.Find("C08", oracle, key, format, args...)
+	}
+	rcx.Res = simrt.Run(cfg, rcx.Sched, func() {
+		fs := simfs.New()
+		fs.WalkGetAttrENOSYS = rcx.Plan.Choose(2) == 1
+		fs.MkPath("/a/")
+		obj := fs.MkPath("/a/x")
+		w := NewWorld(nil, fs)
+		cb := w.Connect()
+		ca := cb
+		if cross {
+			ca = w.Connect()
+		}
+		ok := cb.Start(8192, "9P2000.L.Google.7") && cb.WalkTo(0, 1, "/a/x") && cb.WalkTo(0, 2, "/a")
+		if cross {
+			ok = ok && ca.Start(8192, "9P2000.L.Google.7")
+		}
+		ok = ok && ca.WalkTo(0, 5, "/a")
+		if !ok {
+			find("setup", "setup", "setup failed")
+			return
+		}
+		var held *simfs.Call
+		fs.Hold = func(c *simfs.Call) bool {
+			if held == nil && c.Method == "RenameAt" {
+				held = c
+				return true
+			}
+			return false
+		}
+		reqA := ca.Send(ca.Tag(), &rc.Trenameat{OldDirFid: 5, OldName: "x", NewDirFid: 5, NewName: "y"})
+		simrt.WaitQuiescent()
+		if held == nil {
+			find("setup", "hold", "the rename did not reach the backend")
+			return
+		}
+		reqB := cb.Send(cb.Tag(), b.m())
+		simrt.WaitQuiescent()
+		fs.Hold = nil
+		held.Release()
+		simrt.WaitQuiescent()
+		if reqA.Reply == nil || reqB.Reply == nil {
+			rcx.Find("C06", "no-reply", "rename-race", "rename answered: %v, %s answered: %v", reqA.Reply != nil, b.name, reqB.Reply != nil)
+			return
+		}
+		if Errno(reqA.Reply.Msg) != 0 {
+			find("setup", "rename-a", "the first rename failed: %s", rc.String(reqA.Reply.Msg))
+			return
+		}
+		if e := Errno(reqB.Reply.Msg); e != 0 {
+			find("stale-name-used", b.name, "%s through a fid on an entry that had just been renamed from x to y answered %s: the request was carried out under a name the entry no longer has", rc.String(b.m()), rc.String(reqB.Reply.Msg))
+		}
+		for _, cl := range fs.Calls {
+			if cl.Req == reqB && (cl.Method == "RenameAt" || cl.Method == "UnlinkAt") && cl.Name != "y" {
+				find("stale-name-used", b.name+"/backend", "%s reached the backend as %s: the entry's current name is y", rc.String(b.m()), cl)
+			}
+		}
+		if b.dir != "" && len(rcx.Findings) == 0 {
+			d := fs.Lookup(b.dir)
+			var got *simfs.Inode
+			if d != nil {
+				got = d.Child(b.nm)
+			}
+			if got == nil || got.Ino != obj.Ino {
+				find("rename-misdirected", "rename-race", "after %s the object is not at %s/%s", b.name, b.dir, b.nm)
+			}
+		}
+		for _, v := range fs.CheckCoherence() {
+			find(v.Oracle, "rename-race", "after rename x->y || %s: %s", b.name, v.Detail)
+		}
+		w.Shutdown()
+		rcx.Findings = append(rcx.Findings, w.Findings...)
+	})
+	finishRun(rcx)
+}
